@@ -25,7 +25,10 @@ def main():
     chk = core.Check(a.prop, tier, seed)
     try:
         if a.replay:
-            return mod.replay(chk, json.load(open(a.replay)))
+            payload = json.load(open(a.replay))
+            if isinstance(payload, dict):
+                payload.setdefault("_path", a.replay)
+            return mod.replay(chk, payload)
         return mod.run(chk)
     except core.HarnessFault as e:
         print(f"HARNESS-FAULT {a.prop}: {e}", file=sys.stderr)
